@@ -290,7 +290,7 @@ func runC13(c *Check) {
 	} else {
 		maxLen = 4
 	}
-	c.Rule = "all token words of length<=N over the C13 token alphabet (joined by single spaces), plus every depth-3 operator chain over a 14-operator (thorough 24) alphabet in 7 (thorough 14) grammar-sensitive statement contexts (for-init, for-var-init, for-of/in heads, arrow bodies, new callee, class heritage, labels, exponent base, statement start); each word: esbuild accept/reject vs V8 (script+module goal), output validity in V8 under 5 configurations, T(T(x))==T(x); distinct = distinct esbuild outputs"
+	c.Rule = "all token words of length<=N over the C13 token alphabet (joined by single spaces), plus every depth-3 operator chain over a 14-operator (thorough 24) alphabet in 7 (thorough 14) grammar-sensitive statement contexts (for-init, for-var-init, for-of/in heads, arrow bodies, new callee, class heritage, labels, exponent base, statement start); each word: esbuild accept/reject vs V8 (script+module goal), output validity in V8 under 5 configurations, T(T(x))==T(x); distinct = distinct esbuild outputs; numeric-adjacency family (29 contexts x 21 numeric forms); statement hazards; every minify-whitespace output is parsed again by esbuild itself"
 	c.Assump = []string{"V8 (Node 20) is the reference grammar", "inputs V8 rejects but esbuild accepts constrain only the fixed-point oracle (esbuild documents that it is not a validator)"}
 	pool := NewNodePool("")
 	defer pool.Close()
